@@ -150,7 +150,7 @@ def generate():
         env, where = cache[path]
         if rust not in env:
             raise TieError(f"constant {rust} not found / not evaluable in {rel}")
-        lines.append(f"Definition {coqname} : Z := {env[rust]}.  (* {rel}:{where[rust]} {rust} *)")
+        lines.append(f"Definition {coqname} : Z := {env[rust]}.  (* {rel} {rust} *)")
     lines.append("")
     for prefix, rel, name in ENUMS:
         path = os.path.join(REPO, rel)
